@@ -791,6 +791,9 @@ pixman_image_set_indexed (pixman_image_t *        image,
 {
     bits_image_t *bits = (bits_image_t *)image;
 
+    if (image->type != BITS)
+	return;
+
     if (bits->indexed == indexed)
 	return;
 
